@@ -498,9 +498,21 @@ class LifetimeCtx:
                 SIM.open_deletes = False
             ctx._cur_save = step
             ctx.pending_state[step] = st
-            o_save(step)
+            SIM.in_save = True
+            try:
+                o_save(step)
+            finally:
+                SIM.in_save = False
             ctx._cur_save = None
             started = len(SIM.started) > n0 or SIM.bg_started > e0
+            if started and ctx.asyn and SIM.foreign_started == 0:
+                # Orbax writes the step's _CHECKPOINT_METADATA from a non-blocking helper thread that
+                # the simulator does not park; wait for it so that writer phase W0 is one well-defined
+                # directory state (temp dir + item temp dir + metadata file)
+                try:
+                    SIM.wait_for(lambda: step in SIM.meta_opened or step in SIM.done, f"metadata file of {step}", timeout=20.0)
+                except HarnessError:
+                    ctx.h["events"].append(["metadata_file_not_seen", step])
             dies_inside = bool(ctx.crash and ctx.crash["seam"][0] == "save_inside" and int(ctx.crash["seam"][1]) == step and not ctx.crashed)
             if not dies_inside:  # (a process killed inside save() never sees it return)
                 ctx.h["saves"].append({"step": step, "started": started, "state": digest_state(st)})
@@ -746,7 +758,8 @@ def execute(plan: dict, root: str, resume: Run | None = None, only: int | None =
             # zombies: nobody observes them; let them finish against the old directory
             SIM.release_all()
             if ctx.inflight is not None and ctx.asyn:
-                SIM.wait_for(lambda s=ctx.inflight: s in SIM.done, "zombie writer")
+                SIM.wait_for(lambda s=ctx.inflight: s in SIM.done or SIM.live_bg == 0, "zombie writer")
+            SIM.wait_for(lambda: SIM.live_bg == 0, "zombie writer threads")
             if solver is not None:
                 _safe_close(solver)
             elif run.boots and run.boots[-1].get("solver") is not None:
